@@ -17,17 +17,19 @@ StrongEq(a, b) == a \in {1, 3} /\ a = b
 Req(id, inm, ims, ifm) == reqs' = Ext(reqs, id, [inm |-> inm, ims |-> ims, ifm |-> ifm]) /\ UNCHANGED <<vers, contacted, merged, mergedMulti>>
 Fwd(id) == contacted' = contacted \cup {id} /\ UNCHANGED <<vers, reqs, merged, mergedMulti>>
 \* multi: the values of a header field the response carries on several field lines (all must survive a 304 merge)
-OResp(v, status, etag, gen, multi) ==
+OResp(v, status, etag, gen, multi, len) ==
   /\ IF status = 304 THEN merged' = gen /\ mergedMulti' = multi /\ UNCHANGED vers
-     ELSE vers' = Ext(vers, v, [etag |-> etag]) /\ merged' = 0 /\ mergedMulti' = {}
+     ELSE vers' = Ext(vers, v, [etag |-> etag, len |-> len]) /\ merged' = 0 /\ mergedMulti' = {}
   /\ UNCHANGED <<contacted, reqs>>
 Match304(r, m) == IF r.inm # {} THEN (4 \in r.inm \/ \E e \in r.inm : WeakEq(e, m.etag)) ELSE r.ims \in {"eq", "gt"}
 IfMatchOk(r, m) == r.ifm = 0 \/ r.ifm = 4 \/ StrongEq(r.ifm, m.etag)
-CResp(id, status, hv, bv, gen, multi) ==
+CResp(id, status, hv, bv, gen, multi, blen, complete, declared) ==
   LET r == reqs[id] IN
   /\ (status = 304 => \E w \in DOMAIN vers : Match304(r, vers[w]))
   /\ (status = 412 => r.ifm # 0)
   /\ ((id \notin contacted /\ status = 200 /\ hv \in DOMAIN vers) => IfMatchOk(r, vers[hv]))
   /\ ((id \notin contacted /\ status = 200 /\ hv \in DOMAIN vers /\ merged # 0) => (gen = merged /\ multi = mergedMulti /\ bv \in {hv, NoVal}))
+  \* a full response is correctly framed: the complete, unchanged body of that version, any declared length equal to it
+  /\ ((status = 200 /\ hv \in DOMAIN vers) => (complete /\ blen = vers[hv].len /\ declared \in {NoVal, vers[hv].len}))
   /\ UNCHANGED cvars
 ====
